@@ -284,6 +284,13 @@ func (fc *FnCtx) freshVal(t types.Type, name string) Val {
 // ---- memory
 
 func (fc *FnCtx) load(st *State, p Val) Val {
+	if p.PBase == nil && p.Typ != nil {
+		// a pointer value without a statically tracked location (read from a slice, a field, a call result):
+		// it points to an object of its static element type
+		if pt, ok := types.Unalias(p.Typ).Underlying().(*types.Pointer); ok {
+			p.PBase = pt.Elem()
+		}
+	}
 	if p.PBase == nil {
 		fc.unsupported("load through pointer of unknown base: %s", p.T)
 		return Val{S: "Int", T: "0"}
@@ -309,6 +316,11 @@ func (fc *FnCtx) load(st *State, p Val) Val {
 }
 
 func (fc *FnCtx) store(st *State, p Val, v Val) {
+	if p.PBase == nil && p.Typ != nil {
+		if pt, ok := types.Unalias(p.Typ).Underlying().(*types.Pointer); ok {
+			p.PBase = pt.Elem()
+		}
+	}
 	if p.PBase == nil {
 		fc.unsupported("store through pointer of unknown base: %s", p.T)
 		return
@@ -1662,6 +1674,20 @@ func (fr *Frame) loopEntry(b *ssa.BasicBlock, phis []*ssa.Phi, preds []*ssa.Basi
 		}
 		st.worlds = fc.B.Define("W_loop", "(Array Int WorldS)", w)
 	}
+	for hs := range mods.localHeaps {
+		if mods.heaps[hs] || mods.all {
+			continue
+		}
+		// the loop only allocates objects of this sort and writes to its own allocations: every object that
+		// existed at function entry, and every object this function allocated before the loop, keeps its content
+		before := fc.heapOf(st, hs)
+		after := fc.B.Fresh("H_loop", "(Array Int "+hs+")")
+		fc.B.Assert(fmt.Sprintf("(forall ((r Int)) (! (=> (or (alive0 r) (<= r 0)) (= (select %s r) (select %s r))) :pattern ((select %s r))))", after, before, after))
+		for _, a := range st.allocs {
+			fc.B.Assert("(= (select " + after + " " + a + ") (select " + before + " " + a + "))")
+		}
+		st.heaps[hs] = after
+	}
 	heapsBefore := map[string]string{}
 	for hs := range mods.heaps {
 		// keep allocations made inside the loop out of the frame: havoc the whole heap of that sort
@@ -1850,22 +1876,30 @@ type modSet struct {
 	all    bool
 	heaps  map[string]bool
 	ghosts map[string]bool
+	// localHeaps: heap sorts in which the blocks only allocate objects and write to objects allocated in
+	// these same blocks (every other object of the sort keeps its content)
+	localHeaps map[string]bool
 }
 
 // modSet computes what a set of blocks may modify (syntactic over-approximation).
 func (fr *Frame) modSet(body map[int]*ssa.BasicBlock) modSet {
 	fc := fr.fc
-	ms := modSet{heaps: map[string]bool{}, ghosts: map[string]bool{}}
+	ms := modSet{heaps: map[string]bool{}, ghosts: map[string]bool{}, localHeaps: map[string]bool{}}
 	for _, b := range body {
 		for _, in := range b.Instrs {
 			switch x := in.(type) {
 			case *ssa.Store:
 				if pt, ok := x.Addr.Type().Underlying().(*types.Pointer); ok {
 					// interior pointers write into their base object: find the root
-					ms.heaps[fc.B.SortOf(rootElem(x.Addr, pt.Elem()))] = true
+					hs := fc.B.SortOf(rootElem(x.Addr, pt.Elem()))
+					if a, ok := rootValue(x.Addr).(*ssa.Alloc); ok && body[a.Block().Index] != nil {
+						ms.localHeaps[hs] = true // a write to an object allocated in these blocks
+					} else {
+						ms.heaps[hs] = true
+					}
 				}
 			case *ssa.Alloc:
-				ms.heaps[fc.B.SortOf(x.Type().Underlying().(*types.Pointer).Elem())] = true
+				ms.localHeaps[fc.B.SortOf(x.Type().Underlying().(*types.Pointer).Elem())] = true
 			case *ssa.Next:
 				if it, ok := fr.vals[x.Iter]; ok && it.Fn != nil && it.Fn.Special == "maprange" && len(it.Fn.Data) > 4 {
 					ms.ghosts[it.Fn.Data[4].T] = true
@@ -1889,6 +1923,9 @@ func (fr *Frame) modSet(body map[int]*ssa.BasicBlock) modSet {
 				for h := range eff.heaps {
 					ms.heaps[h] = true
 				}
+				for h := range eff.localHeaps {
+					ms.localHeaps[h] = true
+				}
 				for g := range eff.ghosts {
 					ms.ghosts[g] = true
 				}
@@ -1896,6 +1933,23 @@ func (fr *Frame) modSet(body map[int]*ssa.BasicBlock) modSet {
 		}
 	}
 	return ms
+}
+
+// rootValue: the base value of an address computed by field/element selection
+func rootValue(addr ssa.Value) ssa.Value {
+	for {
+		switch a := addr.(type) {
+		case *ssa.FieldAddr:
+			addr = a.X
+			continue
+		case *ssa.IndexAddr:
+			if _, ok := a.X.Type().Underlying().(*types.Pointer); ok {
+				addr = a.X
+				continue
+			}
+		}
+		return addr
+	}
 }
 
 func rootElem(addr ssa.Value, def types.Type) types.Type {
